@@ -442,6 +442,14 @@ func runScenario(c *common.Ctx, idx int) error {
 			for t := 0; t < 400 && !walEmpty; t++ {
 				fi, err := os.Stat(pdb.WALPath())
 				walEmpty = err != nil || fi.Size() == 0
+				// ... and rewrites the wal-index header. (An application checkpoint may have emptied the log before the
+				// demotion; on a real primary SQLite itself keeps the wal-index current, which the pager simulator does
+				// not: only what LiteFS's recovery wrote there is meaningful.)
+				if walEmpty && h.WALMode {
+					if cnt, ok := shmPageN(filepath.Join(p.Dir, "dbs", "db", "shm")); !ok || cnt != pdb.PageN() {
+						walEmpty = false
+					}
+				}
 				if !walEmpty {
 					time.Sleep(5 * time.Millisecond)
 				}
@@ -512,6 +520,11 @@ func Run(c *common.Ctx) error {
 	}
 	for i := 0; i < 2; i++ {
 		if err := forwardedLostAck(c, i); err != nil {
+			return err
+		}
+	}
+	for _, be := range []bool{false, true} {
+		if err := snapshotAfterLogRestart(c, be); err != nil {
 			return err
 		}
 	}
